@@ -51,3 +51,52 @@ Proof.
   unfold sess_run. destruct (fold_sess sess_init ps eq_refl) as [H1 [H2 H3]].
   cbn in H2, H3. auto.
 Qed.
+
+(** ** Several sessions on one pool.  Each session owns its buffer and parser stream; lines of
+    different sessions arrive interleaved in any order.  [multi_run n evs]: the states of the [n]
+    sessions after the interleaved input [evs] (pairs of session index and parse outcome). *)
+Fixpoint upd_nth {A} (l : list A) (i : nat) (f : A -> A) : list A :=
+  match l, i with
+  | [], _ => []
+  | x :: t, O => f x :: t
+  | x :: t, S k => x :: upd_nth t k f
+  end.
+
+Definition multi_step (ss : list sess) (e : nat * parse_out) : list sess :=
+  upd_nth ss (fst e) (fun s => sess_line s (snd e)).
+
+Definition multi_run (n : nat) (evs : list (nat * parse_out)) : list sess :=
+  fold_left multi_step evs (repeat sess_init n).
+
+(** the lines addressed to session [i], in order *)
+Definition proj_sess (i : nat) (evs : list (nat * parse_out)) : list parse_out :=
+  map snd (filter (fun e => Nat.eqb (fst e) i) evs).
+
+Lemma nth_error_upd_nth {A} (l : list A) i j f :
+  nth_error (upd_nth l i f) j =
+  if Nat.eqb i j then option_map f (nth_error l j) else nth_error l j.
+Proof.
+  revert i j. induction l as [|x t IH]; intros [|i] [|j]; cbn; auto.
+  destruct (Nat.eqb i j); reflexivity.
+Qed.
+
+Lemma multi_fold evs : forall ss i s,
+  nth_error ss i = Some s ->
+  nth_error (fold_left multi_step evs ss) i = Some (fold_left sess_line (proj_sess i evs) s).
+Proof.
+  induction evs as [|[j p] r IH]; intros ss i s Hs; cbn [fold_left]; [exact Hs|].
+  unfold proj_sess. cbn [filter fst]. destruct (Nat.eqb_spec j i) as [->|Hne].
+  - cbn [map snd fold_left]. apply IH. unfold multi_step. cbn [fst snd].
+    rewrite nth_error_upd_nth, Nat.eqb_refl, Hs. reflexivity.
+  - apply IH. unfold multi_step. cbn [fst snd]. rewrite nth_error_upd_nth.
+    destruct (Nat.eqb_spec j i); [congruence|exact Hs].
+Qed.
+
+(** Isolation: whatever the interleaving, session [i] ends exactly as if it had run alone on the
+    lines addressed to it — its replies contain nothing of any other session's output. *)
+Lemma multi_run_isolated n evs i :
+  i < n -> nth_error (multi_run n evs) i = Some (sess_run (proj_sess i evs)).
+Proof.
+  intros Hi. unfold multi_run, sess_run. apply multi_fold.
+  rewrite nth_error_repeat; [reflexivity|exact Hi].
+Qed.
